@@ -288,3 +288,32 @@ Proof.
   - intros Hn. rewrite Hn in E1. discriminate.
   - intros r Hr. eapply forallb_in; eauto.
 Qed.
+
+(* what one accepted reading of a compound unit name says:
+   - it spells the name of the unit,
+   - the signatures of its atoms, with their exponents, add up to the signature of the declaring class,
+   - the declared factor fn/fd and the product pn/pd of the atoms' exact factors satisfy
+     |fn/fd - pn/pd| <= 1e-12 * |pn/pd|   (written cross-multiplied over Z) *)
+Theorem reading_ok_spec : forall T cp r, reading_ok T cp r = true ->
+  exists c fn fd pn pd,
+    get_class T (cp_cls cp) = Some c /\
+    render_reading r = cp_unit cp /\
+    reading_sig T (signed_atoms false r) = Some (cls_sig c) /\
+    unit_ratio c (cp_unit cp) = Some (fn, fd) /\
+    reading_product T (signed_atoms false r) = Some (pn, pd) /\
+    pd <> 0%Z /\
+    (Z.abs (fn * pd - pn * Zpos fd) * 1000000000000 <= Z.abs (pn * Zpos fd))%Z.
+Proof.
+  intros T cp r H. unfold reading_ok in H.
+  destruct (get_class T (cp_cls cp)) as [c|]; [|discriminate].
+  apply andb_true_iff in H. destruct H as [H H3]. apply andb_true_iff in H. destruct H as [H1 H2].
+  apply String.eqb_eq in H1.
+  destruct (reading_sig T (signed_atoms false r)) as [s|] eqn:Es; [|discriminate].
+  apply sig_eqb_eq in H2. subst s.
+  destruct (unit_ratio c (cp_unit cp)) as [[fn fd]|] eqn:Eu; [|discriminate].
+  destruct (reading_product T (signed_atoms false r)) as [[pn pd]|] eqn:Ep; [|discriminate].
+  unfold close_1e12 in H3.
+  apply andb_true_iff in H3. destruct H3 as [H3 H6]. apply andb_true_iff in H3. destruct H3 as [H4 H5].
+  apply negb_true_iff in H5. apply Z.eqb_neq in H5. apply Z.leb_le in H6.
+  exists c, fn, fd, pn, pd. repeat split; auto.
+Qed.
